@@ -11,6 +11,7 @@
 package main
 
 import (
+	"runtime/debug"
 	"crypto/sha256"
 	"crypto/sha512"
 	"encoding/json"
@@ -1780,6 +1781,9 @@ func translate1(prog *ssa.Program, pkg *ssa.Package, globals map[*ssa.Global]*Ce
 				return
 			}
 			res.Err = fmt.Sprintf("internal error: %v", e)
+			if os.Getenv("GO2IR_TRACE") != "" {
+				fmt.Fprintf(os.Stderr, "go2ir: internal error in %s: %v\n%s\n", t.Name, e, debug.Stack())
+			}
 		}
 	}()
 	fn := findFunc(pkg, t.Fn)
@@ -2325,7 +2329,7 @@ func main() {
 			cfg.BuildFlags = []string{"-tags=verif," + strings.ReplaceAll(k.tags, " ", ",")}
 			cfg.Overlay = map[string][]byte{}
 			filepath.Walk(*overlay, func(p string, fi os.FileInfo, err error) error {
-				if err == nil && !fi.IsDir() && strings.HasSuffix(p, ".go") && !strings.Contains(filepath.Base(p), "verif_t0") {
+				if err == nil && !fi.IsDir() && strings.HasSuffix(p, ".go") && !strings.Contains(filepath.Base(p), "verif_t0") && !strings.HasSuffix(p, "_opt.go") && !strings.HasSuffix(p, "_stub.go") {
 					rel, _ := filepath.Rel(*overlay, p)
 					b, _ := os.ReadFile(p)
 					cfg.Overlay[filepath.Join(*repo, rel)] = b
